@@ -37,12 +37,12 @@ type rvalue struct {
 }
 
 type replayBuilder struct {
-	eng    *Engine
-	fc     *FnCtx
-	o      *Obligation
-	file   string // query file without the trailing get-model
-	nvar   int
-	solver string
+	eng     *Engine
+	fc      *FnCtx
+	o       *Obligation
+	file    string // query file without the trailing get-model
+	nvar    int
+	solver  string
 	imports map[string]bool
 }
 
